@@ -97,3 +97,19 @@ package backends
 //@ func (*GCSCache).Exists(gcs, ctx, path, key) (r, err)
 //@   before_call Bucket#1 [same_bucket] arg1 == gcs.bucketName
 //@   before_call Object#1 [same_object] arg1 == ite(gcs.prefix == "", gcs.workspacePrefix, gcs.prefix + "/" + gcs.workspacePrefix) + "/" + trimChars(path, "/") + "/" + trimChars(key, "/")
+
+// C08: the remote namespace is fixed when the backend is created: bucket and prefix from the configuration, workspace
+// identity from the workspace root path only - nothing of the local cache location (GROG_ROOT) enters it.
+//@ func NewS3CacheWithClient(ctx, cacheConfig, client) (r, err)
+//@   pure
+//@   allocates r
+//@   ensures [namespace_from_config_and_workspace_identity] err == nil ==> r != nil && r.bucketName == cacheConfig.Bucket &&
+//@        r.prefix == ite(cacheConfig.Prefix == "", "", trimChars(cacheConfig.Prefix, "/")) &&
+//@        r.workspacePrefix == trimChars(wsCachePrefix(config.Global.WorkspaceRoot), "/")
+//@   ensures [bucket_required] cacheConfig.Bucket == "" ==> err != nil
+
+//@ func NewGCSCache(ctx, cacheConfig) (r, err)
+//@   allocates r
+//@   ensures [namespace_from_config_and_workspace_identity] err == nil ==> r != nil && r.bucketName == cacheConfig.Bucket &&
+//@        r.prefix == ite(cacheConfig.Prefix == "", "", trimChars(cacheConfig.Prefix, "/")) &&
+//@        r.workspacePrefix == ite(cacheConfig.SharedCache, baseName(config.Global.WorkspaceRoot), trimChars(wsCachePrefix(config.Global.WorkspaceRoot), "/"))
